@@ -2428,20 +2428,7 @@ theorem finalize_spec {uris : List (Option Bytes)} {cfg : List (Nat × PVal)} {s
 
 /-! ### Part 6: blocks with no content are absent -/
 
-/-- labels of the nodes that are printed as `keyword { … }` -/
-def braceLabels : List Bytes :=
-  [b "http_get", b "http_post", b "stage", b "process_inject", b "dns_beacon", b "http_beacon", b "client", b "server",
-   b "output", b "metadata", b "id", b "transform_x86", b "transform_x64", b "execute", b "beacon_gate"]
-
-def braceLabel : Option Bytes → Bool
-  | some x => braceLabels.contains x
-  | Option.none => false
-
-/-- no `{ }` block of the forest (at any depth) is empty -/
-def noEmptyBlocks : PForest → Bool
-  | .nil => true
-  | .tok _ _ r => noEmptyBlocks r
-  | .node l ks r => (!braceLabel l || !ks.isEmpty) && noEmptyBlocks ks && noEmptyBlocks r
+/-! `braceLabels`, `braceLabel`, `noEmptyBlocks` are defined in Model/C13.lean (the driver evaluates them) -/
 
 theorem ne_append (x y : PForest) : noEmptyBlocks (x ++ y) = (noEmptyBlocks x && noEmptyBlocks y) := by
   show noEmptyBlocks (PForest.append x y) = _
